@@ -226,8 +226,8 @@ def coq_filter(f):
         if op == "in":
             return "FOther (%s %s)" % ("type_in" if k == "type" else "oid_in", common.coq_list([name(v) for v in f["v"]]))
         return "FOther (%s %s %s)" % ("type_op" if k == "type" else "oid_op", COQ_OP[op], name(f["v"]))
-    if k == "mod":
-        return "FOther (mod_op %s %s %s)" % (COQ_OP[op], common.coq_Z(storeutil.parse_ts(f["v"])), common.coq_ustr(f["v"]))
+    if k in ("mod", "cre"):
+        return "FOther (%s_op %s %s %s)" % (k, COQ_OP[op], common.coq_Z(storeutil.parse_ts(f["v"])), common.coq_ustr(f["v"]))
     if k == "pay":
         if op == "in":
             return "FOther (pay_in %s)" % common.coq_list([common.coq_N(v) for v in f["v"]])
@@ -488,7 +488,8 @@ def make_spec(rng, cls, oid, us, pay, style=None, typ=None, form_obj=False, prop
     elif cls.startswith("marking"):
         o["cre"] = storeutil.ts_text(cre_us if cre_us is not None else CRE_US, "ms")
     else:
-        o["cre"] = storeutil.ts_text(CRE_US, "ms")
+        # `created` is supposed not to change between versions; the stores must not rely on it
+        o["cre"] = storeutil.ts_text(cre_us if cre_us is not None else CRE_US, "ms")
     if versioned and us is not None:
         st = style or rng.choice(STYLES)
         o["mod"] = storeutil.ts_text(us, st)
@@ -519,7 +520,7 @@ def vary_op(rng, f, types, ids, maxpay):
             if rng.random() < 0.2:
                 g["v"] = sorted(set(g["v"]) | set(range(2000, 2000 + rng.choice(IN_SIZES))))
         return g
-    if k == "mod":
+    if k in ("mod", "cre"):
         g["op"] = rng.choice(["=", "=", "!=", "<", ">", "<=", ">="])
         return g
     op = rng.choice(["!=", "in", "<", ">", "<=", ">="] if k in ("type", "id") else ["!=", "in"])
@@ -618,6 +619,7 @@ def gen_case(rng, store, profile=None, max_adds=10):
     flat_ids = {a[1] for a in actors if a[0] == "unreg" and rng.random() < 0.3}
     pay = [0]
     idents = [a[1] for a in actors if a[0].startswith("identity")]
+    creators = (idents + POOL["identity"][4:6])[:3]
 
     def one_spec():
         cls, oid, typ = rng.choice(actors)
@@ -627,10 +629,11 @@ def gen_case(rng, store, profile=None, max_adds=10):
         if cls.startswith("rel"):
             ends = [a[1] for a in actors if not a[0].startswith(("rel", "marking", "lang"))] or [POOL["identity"][5]]
             props = {"source_ref": rng.choice(ends), "target_ref": rng.choice(ends), "relationship_type": "related-to"}
-        elif idents and cls in ("campaign21", "campaign20", "xreg21", "xreg20") and rng.random() < 0.3:
-            props = {"created_by_ref": rng.choice(idents)}
+        elif cls in ("campaign21", "campaign20", "xreg21", "xreg20", "identity21", "identity20") and rng.random() < 0.45:
+            # versions of one id may name different creators ("unmodifiable" properties are not constant for a store)
+            props = {"created_by_ref": rng.choice(creators)}
         o = make_spec(rng, cls, oid, us, pay[0], form_obj=True, props=props,
-                      cre_us=CRE_US + rng.choice([0, 1000, 86400 * 10 ** 6]))
+                      cre_us=CRE_US + rng.choice([0, 0, 0, 1000, 86400 * 10 ** 6]))
         if oid in flat_ids:
             o.pop("mod", None)
         if violating and cls == "unreg":
@@ -673,6 +676,10 @@ def gen_case(rng, store, profile=None, max_adds=10):
             if rng.random() < 0.4:
                 ts = rng.sample(all_types, rng.randint(1, len(all_types)))
                 qs.append([{"k": "type", "op": "in", "v": sorted(ts + ["x-fill-%d" % j for j in range(max(0, n - len(ts)))])}])
+        if full or rng.random() < 0.4:
+            # properties that are supposed to be constant over the versions of an id
+            qs.append([{"k": "prop", "p": "created_by_ref", "v": rng.choice(creators)}])
+            qs.append([{"k": "cre", "v": storeutil.ts_text(CRE_US + rng.choice([0, 1000, 86400 * 10 ** 6]), rng.choice(STYLES))}])
         if full or rng.random() < 0.5:
             # `modified` against a timestamp text in every spelling (whole second, .5, .250, 3 and 6 digits)
             for _ in range(rng.choice([1, 2])):
@@ -782,7 +789,12 @@ def rec_of(o):
         inst = spec_instant(o, "mod")
         if inst is not None and cls != "unreg":
             inst = eff_us(cls, inst)
-    return {"id": o["id"], "inst": inst, "pay": o["pay"], "typ": o["typ"], "text": cls == "unreg",
+    cre = None
+    if o.get("cre") is not None:
+        cre = storeutil.parse_ts(o["cre"])
+        if cre is not None and cls != "unreg":
+            cre = eff_us(cls, cre)
+    return {"id": o["id"], "inst": inst, "pay": o["pay"], "typ": o["typ"], "text": cls == "unreg", "cre": cre,
             "has_mod": o.get("mod") is not None or bool(o.get("moddt")), "props": o.get("props") or {},
             "naive": is_naive(o)}
 
@@ -800,6 +812,11 @@ def holds(f, r):
             return False
         x = r["inst"]
         f = dict(f, v=storeutil.parse_ts(f["v"]))      # registered classes: the filter text is read as an instant
+    elif k == "cre":
+        if r.get("cre") is None:
+            return False
+        x = r["cre"]
+        f = dict(f, v=storeutil.parse_ts(f["v"]))
     elif k == "prop":
         x = r["props"].get(f["p"])
         if x is None:
@@ -899,7 +916,7 @@ def oracle_case(case, impl):
 
     def check_list(what, got, recs, q, mrecs):
         out_ids = set(outside)
-        if any(f["k"] == "mod" for f in q + af):
+        if any(f["k"] in ("mod", "cre") for f in q + af):
             # a timestamp filter on content kept as a dictionary compares text (property C12's finding): not judged here
             out_ids |= {r["id"] for r in recs + mrecs if r["text"]}
         if isinstance(got, str):
@@ -1008,6 +1025,15 @@ def oracle_case(case, impl):
     return out
 
 
+def safe_oracle(fn, kind, case, *args):
+    """the oracle must never stop the check: an exception inside it is reported as a replayable case"""
+    try:
+        return fn(case, *args)
+    except Exception as e:  # noqa: BLE001
+        return [Violation("the oracle raised %s: %s on this case" % (type(e).__name__, str(e)[:200]),
+                          {"kind": kind, "case": case}, finding="oracle-error")]
+
+
 def nontrivial(case, impl):
     if isinstance(impl, dict):
         return False
@@ -1108,13 +1134,13 @@ def check(run):
         run.broken.append(Broken("correspondence", "model evaluation failed", {"error": str(e)[-1500:]}))
     # oracle
     for c, i in zip(cases, impl):
-        run.violations += oracle_case(c, i)
+        run.violations += safe_oracle(oracle_case, "c11-case", c, i)
     if (broke or run.broken) and not [v for v in run.violations if v.finding is None]:
         # search harder on the implementation alone
         extra = [gen_case(run.rng, "mem" if k % 2 == 0 else "fs", max_adds=14) for k in range(1500)]
         eimpl = common.run_impl("c11_impl", extra)
         for c, i in zip(extra, eimpl):
-            run.violations += oracle_case(c, i)
+            run.violations += safe_oracle(oracle_case, "c11-case", c, i)
         run.coverage["search_cases"] = len(extra)
     run.coverage["trusted_base"] += [
         "coq/Model/Store.v is hand-written; its tie to stix2/datastore is the per-run correspondence above and, for the "
